@@ -1,5 +1,23 @@
 package main
 
-import "verif/vh"
+import (
+	"mosn.io/api"
+	"mosn.io/mosn/pkg/protocol/xprotocol"
+	"mosn.io/mosn/pkg/protocol/xprotocol/bolt"
+	"mosn.io/mosn/pkg/protocol/xprotocol/boltv2"
+	"mosn.io/mosn/pkg/protocol/xprotocol/dubbo"
+	"mosn.io/mosn/pkg/protocol/xprotocol/tars"
+	xstream "mosn.io/mosn/pkg/stream/xprotocol"
+	"verif/vh"
+)
+
+func init() {
+	// what cmd/mosn/main/control.go does for the xprotocol family
+	xprotocol.RegisterXProtocolAction(xstream.NewConnPool, xstream.NewStreamFactory, func(codec api.XProtocolCodec) {})
+	_ = xprotocol.RegisterXProtocolCodec(&bolt.XCodec{})
+	_ = xprotocol.RegisterXProtocolCodec(&boltv2.XCodec{})
+	_ = xprotocol.RegisterXProtocolCodec(&dubbo.XCodec{})
+	_ = xprotocol.RegisterXProtocolCodec(&tars.XCodec{})
+}
 
 func runTable(cases string, tr *vh.Trace, rs *vh.Out, shard, shards int) {}
